@@ -1,4 +1,5 @@
 (* C11  XML mapping (element-tree level; text <-> element tree is the XML libraries' business). *)
+From Coq Require Import String.   (* string literals of the examples; imported first so the list names win *)
 From Coq Require Import NArith ZArith List Bool.
 From DictIO Require Import Chars Str Value Scalar SDict KeyPath Reader Expr Xml TreeSpec LayoutSpec SemProofs.
 Import ListNotations.
@@ -9,12 +10,49 @@ Theorem C11_numbering_removed : forall i tag, (i < 1000000)%N ->
 Proof. exact numbering_removed. Qed.
 Print Assumptions C11_numbering_removed.
 
+(* non-vacuity: smallest and largest id; a tag that itself starts with digits and an underscore loses only the
+   running number *)
+Example C11_numbering_removed_nonvacuous :
+  (42 < 1000000)%N /\ pad6 42 ++ [c_us] ++ of_string "12_Model" = of_string "000042_12_Model" /\
+  strip_numbering (pad6 42 ++ [c_us] ++ of_string "12_Model") = of_string "12_Model" /\
+  strip_numbering (pad6 999999 ++ [c_us] ++ of_string "x") = of_string "x".
+Proof.
+  assert (H : (42 < 1000000)%N) by reflexivity.
+  refine (conj H (conj _ (conj (C11_numbering_removed 42 _ H) (C11_numbering_removed 999999 _ _)))); vm_compute; reflexivity.
+Qed.
+
 (* writing a dict: every scalar leaf under an ordinary key becomes the text of a child element named by that key *)
 Theorem C11_write_leaf : forall tag kvs k v, wf (Dict kvs) = true ->
   alookup k kvs = Some (Leaf v) -> special_xml_key (key_text_xml k) = false -> v <> SNone ->
   In (Elem (strip_numbering (key_text_xml k)) [] (Some (py_str v)) []) (elem_children (populate tag (Dict kvs))).
 Proof. exact populate_leaf. Qed.
 Print Assumptions C11_write_leaf.
+
+(* non-vacuity: a dict as the XML reader produces it (numbered keys, _attributes, _content) with leaves of several
+   types; the leaf under the numbered key 000002_mass becomes the element mass *)
+Example C11_write_leaf_nonvacuous :
+  let kvs := [(KS (of_string "_attributes"), Dict [(KS (of_string "id"), Leaf (SInt 7))]);
+              (KS (of_string "000001_name"), Leaf (SStr (of_string "two words")));
+              (KS (of_string "000002_mass"), Leaf (SFloat (of_string "1.5")));
+              (KS (of_string "000003_sub"), Dict [(KS (of_string "_content"), Leaf (SBool true))]);
+              (KI 4, Leaf SNone)] in
+  let k := KS (of_string "000002_mass") in
+  wf (Dict kvs) = true /\ alookup k kvs = Some (Leaf (SFloat (of_string "1.5"))) /\
+  special_xml_key (key_text_xml k) = false /\ SFloat (of_string "1.5") <> SNone /\
+  In (Elem (of_string "mass") [] (Some (of_string "1.5")) []) (elem_children (populate (of_string "root") (Dict kvs))) /\
+  populate (of_string "root") (Dict kvs) =
+    Elem (of_string "root") [(of_string "id", of_string "7")] None
+      [Elem (of_string "name") [] (Some (of_string "two words")) []; Elem (of_string "mass") [] (Some (of_string "1.5")) [];
+       Elem (of_string "sub") [] (Some (of_string "True")) []; Elem (of_string "4") [] (Some []) []].
+Proof.
+  intros kvs k.
+  assert (H1 : wf (Dict kvs) = true) by (vm_compute; reflexivity).
+  assert (H2 : alookup k kvs = Some (Leaf (SFloat (of_string "1.5")))) by (vm_compute; reflexivity).
+  assert (H3 : special_xml_key (key_text_xml k) = false) by (vm_compute; reflexivity).
+  assert (H4 : SFloat (of_string "1.5") <> SNone) by discriminate.
+  refine (conj H1 (conj H2 (conj H3 (conj H4 (conj (C11_write_leaf (of_string "root") kvs k _ H1 H2 H3 H4) _))))).
+  vm_compute. reflexivity.
+Qed.
 
 (* element order is preserved: children appear in the order of the dict's ordinary keys *)
 Theorem C11_write_order : forall tag kvs,
